@@ -232,6 +232,74 @@ def blanks_at_token_ends(run, thorough):
     return st
 
 
+ALIASES = [('T_BOOL_AND', 'T_KW_AND', '&&', 'and'), ('T_BOOL_OR', 'T_KW_OR', '||', 'or'), ('T_EXCLAM', 'T_KW_NOT', '!', 'not')]
+
+
+def alias_twins(run):
+    """every production of the regenerated grammar that mentions an alias token has a twin with the other spelling (directly or through a nonterminal that derives both):
+    the aliases are interchangeable wherever the grammar allows one of them.  The one exception is the send marker of a synchronisation (c!), which is not a negation"""
+    import gen_grammar
+    G = gen_grammar.load()
+    rules = [(r['lhs'], tuple(r['rhs'])) for r in G['rules']]
+    S = set(rules)
+    missing = []
+    for a, b_, _, _ in ALIASES:
+        for lhs, rhs in rules:
+            for x, y in ((a, b_), (b_, a)):
+                if x in rhs and not (lhs == 'SyncExpr' and x == 'T_EXCLAM'):
+                    if (lhs, tuple(y if t == x else t for t in rhs)) not in S:
+                        missing.append(dict(production='%s -> %s' % (lhs, ' '.join(rhs)), token=x, missing_twin_with=y))
+    if missing:
+        run.tie_broken('a production accepts one spelling of an operator alias only', missing[:6])
+    return len(rules)
+
+
+QUERY_ALIAS = ['control: A[] (b0 && A<> b1)', 'control: A[] (b0 && !b1 && A<> (b1 || b0))', 'E<> !b0 && (b1 || !b0)', 'A[] b0 && !b1 || b0', 'A[] !(b0 && b1) || !b0', 'E<> v0 > 1 && !(v1 < 2 || b0)', 'b0 && !b1 --> b1 || b0',
+               'Pr[<=10](<> b0 && !b1)', 'Pr[<=10](b0 || b1 U !b0 && b1)', 'E[<=10; 100](max: v0 * (b0 && !b1))', 'sup{b0 && !b1}: v0', 'inf{!b0 || b1}: v0', 'A[] forall (i : int[0,2]) arr[i] >= 0 && !b0',
+               'E<> exists (i : int[0,2]) !(arr[i] == 1) || b0', 'control: A[ b0 && !b1 U b1 || b0 ]', 'control: A[ !b0 W b1 && b0 ]', '{v0, v1} control: A<> b0 && !b1', 'minE(v0)[<=10] : <> b0 && !b1',
+               'simulate [<=10] { v0, b0 && !b1 }', 'simulate [<=10; 5] { v0 } : 2 : b0 || !b1', 'E<> P.A && !b0', 'A[] P.A imply !b0 || b1', 'strategy S1 = control: A<> b0 && !b1', 'A[] not deadlock || !b0']
+
+
+def query_aliases(run, rng):
+    """the alias rewrite on queries: every query of the list with its operators spelled symbolically, by keyword, and mixed at random; the verdict and the tree must agree"""
+    import exprgen
+    def respell(q, how):
+        toks = re.findall(r'&&|\|\||!=|!|[A-Za-z_]\w*|\d+(?:\.\d+)?|\s+|.', q)
+        out = []
+        for t in toks:
+            w = {'&&': 'and', '||': 'or', '!': 'not'}.get(t)
+            if w and (how == 'kw' or (how == 'mix' and rng.random() < 0.5)):
+                out.append(' ' + w + ' ')
+            else:
+                out.append(t)
+        return ''.join(out)
+    j, plan = vlib.Job(), []
+    for k, q in enumerate(QUERY_ALIAS):
+        c = j.case('qa%d' % k, fork=True).model('xta', exprgen.FIXTURE_XTA)
+        vs = [q, respell(q, 'kw'), respell(q, 'mix'), respell(q, 'mix')]
+        for v in vs:
+            c.query(v, rt=False)
+        c.end()
+        plan.append((k, vs))
+    rr = vlib.run_jobs(j)
+    n = 0
+    for k, vs in plan:
+        c = rr['qa%d' % k]
+        if c['status'] != 'ok':
+            run.fail('parser crashed on a query (%s)' % c['status'], dict(queries=vs, status=c['status']), shape='crash:query-alias')
+            continue
+        obs = []
+        for i in range(len(vs)):
+            cm = c['cmds'][1 + i][2]
+            obs.append((next((l for l in cm if l.startswith('accepted')), ''), sorted(re.sub(r' ctx=.*$', '', l) for l in cm if l.startswith('error')), next((l for l in cm if l.startswith('tree ')), '')))
+        for i in range(1, len(vs)):
+            n += 1
+            if obs[i] != obs[0]:
+                run.fail('the query %r and its respelling %r differ: %s vs %s' % (vs[0], vs[i], obs[0][:2], obs[i][:2]), dict(original=vs[0], rewritten=vs[i], a=obs[0], b=obs[i]), shape='query-alias:' + re.sub(r'[^A-Za-z\[\]<>]+', '_', vs[0])[:30])
+                break
+    return n
+
+
 def check(run):
     thorough = run.tier == 'thorough'
     rng = run.rng
@@ -242,6 +310,8 @@ def check(run):
         run.tie_broken('reader of the <comment> rules of lexer.l', str(e))
     run.proofs()
     cstats = comments_at_character_level(run, thorough)
+    cstats['alias_twin_productions'] = alias_twins(run)
+    cstats['query_alias_rewrites'] = query_aliases(run, rng)
     cstats.update({'blank_' + k: v for k, v in blanks_at_token_ends(run, thorough).items()})
     n = 2500 if thorough else 320
     j = vlib.Job()
